@@ -65,6 +65,18 @@ func CheckC03(v *View, st Stats) []Violation {
 	for i, c := range v.PodDeletes {
 		st.Inc("deletes_checked")
 		p := v.claimedByName(c.Name)
+		// a pod this very reconcile created earlier is judged as created (Parallel sets go on to the
+		// update walk after creating pods, e.g. on the legacy path without a rollingUpdate block)
+		for _, cr := range v.PodCreates {
+			if cr.Name == c.Name && cr.Seq < c.Seq {
+				if np, ok := cr.Obj.(*corev1.Pod); ok {
+					q := np.DeepCopy()
+					q.Status.Phase = corev1.PodPending
+					p = q
+					st.Inc("deletes_of_pods_created_in_same_reconcile")
+				}
+			}
+		}
 		if p == nil || !v.Active() {
 			out = append(out, viol("C03", "target-not-claimed", "delete of %s which is not a pod the set claims in the snapshot it reconciled", c.Name))
 			continue
@@ -473,18 +485,29 @@ func CheckC12(v *View, st Stats) []Violation {
 		if before == nil || v.Set == nil {
 			continue
 		}
+		// was this write issued by the conflict-retry path onto an object re-read from the lister?
+		// (its content was computed from the stale copy the reconcile started with)
+		retryTag := ""
+		for _, d := range v.R.Calls {
+			if d.Seq < c.Seq && d.Res == simapi.Sets && d.Sub == "status" && d.Reason == "Conflict" && w.ResourceVersion != v.Set.ResourceVersion {
+				retryTag = " [written by the status updater's conflict-retry onto a refreshed object, computed from the stale status the reconcile started with]"
+			}
+		}
 		if s.ObservedGeneration < before.Status.ObservedGeneration {
-			out = append(out, viol("C12", "observed-generation-regressed", "status.observedGeneration %d -> %d", before.Status.ObservedGeneration, s.ObservedGeneration))
+			out = append(out, viol("C12", "observed-generation-regressed", "status.observedGeneration %d -> %d%s", before.Status.ObservedGeneration, s.ObservedGeneration, retryTag))
 		}
 		old := before.Status.CurrentRevision
 		if old != "" && old != s.CurrentRevision && revByName(OwnRevisions(v.RevsBefore, v.Set), old) != nil {
 			st.Inc("current_revision_transitions_checked")
+			if retryTag != "" {
+				st.Inc("current_revision_transitions_by_conflict_retry")
+			}
 			if s.CurrentRevision != s.UpdateRevision {
-				out = append(out, viol("C12", "current-revision-jump", "currentRevision %s -> %s which is not updateRevision %s", old, s.CurrentRevision, s.UpdateRevision))
+				out = append(out, viol("C12", "current-revision-jump", "currentRevision %s -> %s which is not updateRevision %s%s", old, s.CurrentRevision, s.UpdateRevision, retryTag))
 			}
 			for _, p := range v.Claimed {
 				if podRev(p) != s.UpdateRevision || !world.IsReady(p) {
-					out = append(out, viol("C12", "premature-completion", "currentRevision %s -> %s although pod %s is at %q ready=%v", old, s.CurrentRevision, p.Name, podRev(p), world.IsReady(p)))
+					out = append(out, viol("C12", "premature-completion", "currentRevision %s -> %s although pod %s is at %q ready=%v%s", old, s.CurrentRevision, p.Name, podRev(p), world.IsReady(p), retryTag))
 					break
 				}
 			}
